@@ -7,7 +7,8 @@ import tierops
 
 RULE = ("exhaustive: all ordered pairs (A,B) of tiers made of disjoint intervals with integer boundaries on a grid of "
         "4 cells (quick) / 6 cells (thorough), labels a,b / c,d, x {union, difference, intersection, mergeLabels}; plus random "
-        "larger pairs on decimals and k/64 including empty, identical, touching and nested tiers; point-tier unions. "
+        "larger pairs on decimals and k/64 including empty, identical, touching and nested tiers; point-tier unions, with shared "
+        "times and with several points at one time inside an operand. "
         "non-trivial = both operands have entries")
 TRUSTED = ["oracle: direct Python statement of the property (harness/props/C10.py:oracle)"]
 ASSUMPTIONS = ["well-formed operands with non-negative times; distinct boundary times differ by more than 1e-9 relative",
@@ -73,12 +74,18 @@ def oracle(c, r):
     if probs:
         return Failure(dict(sig, clause="well-formed"), f"result ill-formed: {probs[0]}")
     if op == "punion":
-        ta = {e[0]: e[1] for e in A["es"]}
-        exp = dict(ta)
-        for t, l in B["es"]:
-            exp[t] = (exp[t] + "-" + l) if t in exp else l
-        want = sorted([[t, l] for t, l in exp.items()])
-        if sorted(res["es"]) != want:
+        # every point of either tier is present; points at the same time are merged with joined labels: at a time that B
+        # has, ALL points of both tiers at that time become ONE point (A's labels in list order, then B's in list order);
+        # at a time that only A has, A's points stay as they are (finding A24: the code used to merge with the first only)
+        want = []
+        for t in sorted({e[0] for e in A["es"]} | {e[0] for e in B["es"]}):
+            la = [e[1] for e in A["es"] if e[0] == t]
+            lb = [e[1] for e in B["es"] if e[0] == t]
+            if lb:
+                want.append([t, "-".join(la + lb)])
+            else:
+                want.extend([t, l] for l in la)
+        if res["es"] != want:
             return Failure(dict(sig, clause="points"), f"points {res['es']} expected {want}")
         return None
     a_es, b_es, out = A["es"], B["es"], res["es"]
@@ -162,6 +169,16 @@ def corpus():
     for op in OPS:
         yield {"op": op, "tier": A, "other": B, "grid": True}
     yield {"op": "iunion", "tier": A, "other": A, "grid": True}
+    # A24 (fixed): point-tier union with coinciding times inside an operand
+    D = {"k": "P", "name": "P", "es": [[10.0, "a"], [40.0, "b"], [40.0, "c"], [70.0, "d"]], "lo": 0.0, "hi": 100.0}
+    Tt = {"k": "P", "name": "P", "es": [[10.0, "a"], [40.0, "b"], [70.0, "d"]], "lo": 0.0, "hi": 100.0}
+    U = {"k": "P", "name": "U", "es": [[25.0, "u"], [40.0, "v"], [130.0, "w"]], "lo": 0.0, "hi": 130.0}
+    V = {"k": "P", "name": "V", "es": [[25.0, "u"], [25.0, "v"]], "lo": 0.0, "hi": 130.0}
+    yield {"op": "punion", "tier": D, "other": U, "grid": True}
+    yield {"op": "punion", "tier": Tt, "other": V, "grid": True}
+    yield {"op": "punion", "tier": D, "other": D, "grid": True}
+    yield {"op": "punion", "tier": {"k": "P", "name": "P", "es": [[40.0, "b"], [40.0, "b-a"]], "lo": 0.0, "hi": 100.0},
+           "other": {"k": "P", "name": "U", "es": [[40.0, "z"], [40.0, "zz"]], "lo": 0.0, "hi": 100.0}, "grid": True}
 
 
 def gen(rnd, tier):
@@ -202,10 +219,18 @@ def gen(rnd, tier):
         else:
             A = T.gen_ptier(rnd, domain, nmax=5, name="A")
             B = T.gen_ptier(rnd, domain, nmax=5, name="B")
-            if A["es"] and rnd.random() < 0.5:
-                t = rnd.choice(A["es"])[0]
+            # internally duplicated times, in either operand or both (on purpose: finding A24)
+            if rnd.random() < 0.4:
+                A = T.with_dup_times(rnd, A)
+            if rnd.random() < 0.4:
+                B = T.with_dup_times(rnd, B)
+            if A["es"] and rnd.random() < 0.6:
+                # shared times: preferably a time that A holds twice
+                ts = T.dup_times(A) or [e[0] for e in A["es"]]
+                t = rnd.choice(ts)
                 if all(e[0] != t for e in B["es"]):
-                    B = dict(B, es=sorted(B["es"] + [[t, "z"]]), hi=max(B["hi"], t))
+                    extra = [[t, "z"]] + ([[t, "zz"]] if rnd.random() < 0.3 else [])
+                    B = dict(B, es=sorted(B["es"] + extra), hi=max(B["hi"], t))
             yield {"op": "punion", "tier": A, "other": B, "grid": domain != "dec"}
 
 
